@@ -362,6 +362,16 @@ class RecorderPolicy(RepoPolicy):
             used = [x for x in list(call.args) + [k.value for k in call.keywords] if isinstance(x, ast.Name) and x.id in star]
             if used:
                 return Target('opaque', 'format-user-arguments:' + norm(call)[:60], raises=self.excm.ordinary, role='lib')
+            # ... and so does turning into text the exception the wrapped function itself raised (its __str__ is user code)
+            names = {x.id for x in list(call.args) + [k.value for k in call.keywords] if isinstance(x, ast.Name)}
+            if names:
+                for t_ in [n for n in walk_own(frame.func.node) if isinstance(n, ast.Try)]:
+                    for h_ in t_.handlers:
+                        if h_.name in names and any(x is call for x in ast.walk(h_)):
+                            body_calls = [c_ for b_ in t_.body for c_ in ast.walk(b_) if isinstance(c_, ast.Call) and c_ is not call and
+                                          not (isinstance(c_.func, ast.Attribute) and c_.func.attr == 'format')]
+                            if any(RepoPolicy.call_target(self, c_, frame).role == 'body' for c_ in body_calls):
+                                return Target('opaque', 'format-user-exception:' + norm(call)[:60], raises=self.excm.ordinary, role='lib')
         return RepoPolicy.call_target(self, call, frame, for_with=for_with)
 
     def unknown_receiver(self, recv, meth, call, frame):
